@@ -500,9 +500,15 @@ impl Document {
                 cursor += 1;
             } else {
                 if let Some(start) = initialism_start {
-                    let end = self.tokens[cursor - 2].span.end;
-                    let start_tok: &mut Token = &mut self.tokens[start];
-                    start_tok.span.end = end;
+                    if cursor - 2 == start + 1 {
+                        // A single letter followed by a period is the end of a sentence
+                        // ("So do I."), not an initialism: keep the period.
+                        to_remove.pop_back();
+                    } else {
+                        let end = self.tokens[cursor - 2].span.end;
+                        let start_tok: &mut Token = &mut self.tokens[start];
+                        start_tok.span.end = end;
+                    }
                 }
 
                 initialism_start = None;
@@ -517,8 +523,12 @@ impl Document {
 
         // An initialism that runs up to the last token has not been closed by the loop.
         if let Some(start) = initialism_start {
-            let end = self.tokens[cursor - 2].span.end;
-            self.tokens[start].span.end = end;
+            if cursor - 2 == start + 1 {
+                to_remove.pop_back();
+            } else {
+                let end = self.tokens[cursor - 2].span.end;
+                self.tokens[start].span.end = end;
+            }
         }
 
         self.tokens.remove_indices(to_remove);
